@@ -22,8 +22,8 @@ EXPLANATION = (
 ASSUMPTIONS = [
     "meta-step (not executed by CBMC): generalisation of the write-loop step proofs from len < 2*rate to every length (Hoare while rule); backed by the bounded plumbing groups of the thorough tier",
     "summary faces of the L1 contracts assert only determinism (state' is a function of entry state, buffer identity, length, rounds, position); the composition theorem instantiates them with the L1-proved byte-serial specification (DESIGN 3.2)",
-    "masked entry points: see C10; C++ entry points are NOT covered (CBMC's C++ front end cannot parse this repository's C++)",
-    "x86-64 assembly permutation: assumed to satisfy the C08 contract (not verified)",
+    "masked one-shot entry points: constant lengths around the block boundaries only, masked permutation = its C10 contract (see C10); C++ entry points are NOT covered (CBMC's C++ front end cannot parse this repository's C++)",
+    "x86-64 assembly permutation: satisfies the C08 contract through the instruction lifter (see C08)",
 ]
 
 
@@ -34,4 +34,5 @@ def groups(tier):
     gs += common.crypt_groups("c01", ["C01"], "encrypt", tier, seed=seed)
     gs += common.aead_l2_groups("c01", ["C01"], "encrypt")
     gs += common.aead_inc_groups("c01", ["C01"], ("init", "reinit", "start", "encrypt_block", "encrypt_finalize"))
+    gs += common.masked_aead_groups("c01", ["C01"], tier, ops=("encrypt",))
     return gs
